@@ -5,6 +5,7 @@ import (
 	"math/rand/v2"
 	"os"
 	"regexp"
+	"sort"
 	"strings"
 	"sync"
 
@@ -17,11 +18,11 @@ var c16Strings = []string{"", "a b", "it's", "MiXed", "from here", "x--y", "/*z*
 
 // c16Write ingests one round of rows for every (database, measurement). withExtra adds
 // the column `extra`, which therefore is missing from the files of other rounds.
-func c16Write(e *env, rng *rand.Rand, rid *int64, round int, withExtra bool) error {
+func c16Write(e *env, rng *rand.Rand, rid *int64, round int, withExtra bool, measurements []string) error {
 	for _, db := range c16DBs {
 		var sb strings.Builder
 		n := 0
-		for _, m := range c16Measurements {
+		for _, m := range measurements {
 			for day := 1; day <= 2; day++ {
 				for _, h := range []int{0, 6, 12, 18} {
 					if round > 0 && rng.IntN(3) != 0 && !(day == 1 && h == 0) { // later rounds touch only some partitions
@@ -75,7 +76,7 @@ func c16Setup(c *vlib.Ctx, w int) (*env, bool) {
 	}
 	rid := int64(0)
 	for round := 0; round < 3; round++ {
-		if err := c16Write(e, rng, &rid, round, round == 1); err != nil {
+		if err := c16Write(e, rng, &rid, round, round == 1, c16Measurements); err != nil {
 			c.Inconclusive(err.Error())
 			e.close()
 			return nil, false
@@ -86,12 +87,28 @@ func c16Setup(c *vlib.Ctx, w int) (*env, bool) {
 			return nil, false
 		}
 	}
+	// the additional mixed-case measurements of the "mixed-case names" family come from their
+	// own stream and are written afterwards, so the data of cpu/mem/NetIO (and with it the
+	// random family) is the same as without them
+	rngMC := c.Rand(fmt.Sprintf("c16-data-mc-%d", w))
+	for round := 0; round < 2; round++ {
+		if err := c16Write(e, rngMC, &rid, round, round == 1, c16ExtraMixedCase); err != nil {
+			c.Inconclusive(err.Error())
+			e.close()
+			return nil, false
+		}
+		if !e.flush() {
+			c.Inconclusive("flush watchdog")
+			e.close()
+			return nil, false
+		}
+	}
 	if err := e.defineRefs("default", "db2"); err != nil {
 		c.Inconclusive("reference: " + err.Error())
 		e.close()
 		return nil, false
 	}
-	_, got, err := refQuery(e.refs[""], `SELECT (SELECT count(*) FROM cpu) + (SELECT count(*) FROM mem) + (SELECT count(*) FROM "NetIO") + (SELECT count(*) FROM db2.cpu) + (SELECT count(*) FROM db2.mem) + (SELECT count(*) FROM db2."NetIO")`)
+	_, got, err := refQuery(e.refs[""], `SELECT (SELECT count(*) FROM cpu) + (SELECT count(*) FROM mem) + (SELECT count(*) FROM "NetIO") + (SELECT count(*) FROM db2.cpu) + (SELECT count(*) FROM db2.mem) + (SELECT count(*) FROM db2."NetIO") + (SELECT count(*) FROM "HostInfo") + (SELECT count(*) FROM db2."HostInfo")`)
 	if err != nil || len(got) != 1 || got[0][0].(int64) != rid {
 		c.Inconclusive(fmt.Sprintf("dataset not stored as generated: %v %v want %d", err, got, rid))
 		e.close()
@@ -103,7 +120,8 @@ func c16Setup(c *vlib.Ctx, w int) (*env, bool) {
 }
 
 func checkC16(c *vlib.Ctx) {
-	c.Rule("per worker: cpu, mem, NetIO in databases default and db2 (nullable int/float/string/bool columns, nullable tag, mixed-case column, a column present only in some files, 2 days x 4 hours, 3 flush rounds). Queries from a grammar: scalar/aggregate projections, SELECT *, DISTINCT, WHERE (comparisons, IN, LIKE, IS NULL, BETWEEN, OR, IN/scalar/EXISTS subqueries), GROUP BY/HAVING, total ORDER BY (+LIMIT), CTEs (named like measurements, shadowing the measurement they read, column lists, quoted names, chained), derived tables, every join kind (inner/left/right/full/cross/semi/anti/natural/asof/lateral/comma, ON/USING), set operations, EXTRACT/SUBSTRING/TRIM/POSITION bodies, literals containing SQL text, quoted and db-qualified names, random keyword case, whitespace (newline/tab/CRLF) and comments between any two tokens; each text is sent under several header settings and repeated (transform cache). Non-trivial = accepted by arc and compared.")
+	c.Rule("per worker: cpu, mem, NetIO (+ HostInfo for the mixed-case family) in databases default and db2 (nullable int/float/string/bool columns, nullable tag, mixed-case column, a column present only in some files, 2 days x 4 hours, 3 flush rounds). Queries from a grammar: scalar/aggregate projections, SELECT *, DISTINCT, WHERE (comparisons, IN, LIKE, IS NULL, BETWEEN, OR, IN/scalar/EXISTS subqueries), GROUP BY/HAVING, total ORDER BY (+LIMIT), CTEs (named like measurements, shadowing the measurement they read, column lists, quoted names, chained), derived tables, every join kind (inner/left/right/full/cross/semi/anti/natural/asof/lateral/comma, ON/USING), set operations, EXTRACT/SUBSTRING/TRIM/POSITION bodies, literals containing SQL text, quoted and db-qualified names, random keyword case, whitespace (newline/tab/CRLF) and comments between any two tokens; each text is sent under several header settings and repeated (transform cache). Non-trivial = accepted by arc and compared.")
+	c.Rule("family 'mixed-case names' (enumerated, identical at every seed, 292 queries dealt to the workers): measurement NetIO | HostInfo x bare | double-quoted x no header | x-arc-database default | db2 x position: FROM (plain, aliased + WHERE), right-hand side of each of 13 join kinds, both sides, NATURAL self join, CTE + JOIN (CTE left / CTE right reading the measurement / join inside the CTE body), derived table + JOIN, IN-subquery, two joins; plus db2.M and \"default\".M in FROM and JOIN position; plain style (single spaces, no comments, varying keyword case)")
 	c.Assume("reference = the same SQL text on a private DuckDB (same library version) whose views \"db\".\"m\" (and bare m for the header / default database) read exactly the stored Parquet files with union_by_name")
 	c.Assume("measurement names are referenced in their stored case (arc's storage is case-sensitive by design); database `default` is written quoted when explicit because DEFAULT is reserved in DuckDB; float data are multiples of 0.25 so aggregates do not depend on summation order; SELECT * compares columns by name")
 	if c.Replay != "" {
@@ -160,6 +178,7 @@ func c16Worker(c *vlib.Ctx, w, n int) {
 		return
 	}
 	defer e.close()
+	c16MixedCaseFamily(c, e, w, 4)
 	rng := c.Rand(fmt.Sprintf("c16-q-%d", w))
 	g := &c16Gen{rng: rng}
 	shrunk := 0
@@ -236,6 +255,22 @@ func c16Worker(c *vlib.Ctx, w, n int) {
 var reQualified = regexp.MustCompile(`"?\w+"?\s*\.\s*"?[\w-]+"?`) // db.measurement / alias.column
 var rePathCall = regexp.MustCompile(`read_parquet\([^)]*\)`)
 var rePath = regexp.MustCompile(`read_parquet\(\[?'([^']*)'`)
+var reRefKeyword = regexp.MustCompile(`(?i)\b(FROM|JOIN)\s+read_parquet\(\[?'([^']*)'`)
+
+// c16Stored returns the stored measurement whose name equals name ignoring letter case ("" = none).
+func c16Stored(name string) string {
+	for _, m := range c16Measurements {
+		if strings.EqualFold(m, name) {
+			return m
+		}
+	}
+	for _, m := range c16ExtraMixedCase {
+		if strings.EqualFold(m, name) {
+			return m
+		}
+	}
+	return ""
+}
 
 // refDBs lists the database of every stored-measurement reference ("" = bare name).
 func (s *selSpec) refDBs() []string {
@@ -321,14 +356,18 @@ func c16Classify(e *env, q qspec, o outcome) string {
 	expected, ctes := q.Sel.tableRefs()
 	valid, bogus := 0, []string{}
 	gotDB := map[string]int{}
+	wrongCase := map[string]string{} // path component -> stored mixed-case measurement it equals except for letter case
 	for _, m := range rePath.FindAllStringSubmatch(conv, -1) {
 		rel := strings.TrimPrefix(m[1], e.n.Root+"/")
 		parts := strings.Split(rel, "/")
-		if len(parts) >= 2 && (parts[0] == "default" || parts[0] == "db2") && (parts[1] == "cpu" || parts[1] == "mem" || parts[1] == "NetIO") {
+		if len(parts) >= 2 && (parts[0] == "default" || parts[0] == "db2") && c16Stored(parts[1]) != "" && c16Stored(parts[1]) == parts[1] {
 			valid++
 			gotDB[parts[0]]++
 		} else if len(parts) >= 2 {
 			bogus = append(bogus, parts[1])
+			if st := c16Stored(parts[1]); st != "" && st != strings.ToLower(st) && (parts[0] == "default" || parts[0] == "db2") {
+				wrongCase[parts[1]] = st
+			}
 		}
 	}
 	has := map[string]bool{}
@@ -364,6 +403,24 @@ func c16Classify(e *env, q qspec, o outcome) string {
 			return "header path: WITH followed by tab/newline is not recognised, CTE references are rewritten to storage paths"
 		}
 		return "CTE reference rewritten to a storage path" + hdr
+	}
+	if len(wrongCase) > 0 {
+		pos := map[string]bool{}
+		for _, m := range reRefKeyword.FindAllStringSubmatch(conv, -1) {
+			parts := strings.Split(strings.TrimPrefix(m[2], e.n.Root+"/"), "/")
+			if len(parts) >= 2 && wrongCase[parts[1]] != "" {
+				pos[strings.ToUpper(m[1])] = true
+			}
+		}
+		var ps []string
+		for k := range pos {
+			ps = append(ps, k)
+		}
+		sort.Strings(ps)
+		if len(ps) == 0 {
+			ps = []string{"table"}
+		}
+		return "mixed-case measurement name in " + strings.Join(ps, "/") + " position: the storage path is built with another letter case than the stored name, the measurement reads as empty" + hdr
 	}
 	if q.Style.DotSpace {
 		return "whitespace around the dot of db.measurement: reference not rewritten (or the database name rewritten as a measurement)" + hdr
